@@ -3,6 +3,7 @@
    (ii) spec-level reference models (ref/ref_crypt.h, ref/ref_des.h) over libgcrypt. */
 #include "vh_rt.h"
 #include "vh_methods.h"
+#include "vh_grammar.h"
 #include <crypt.h>
 #include <dlfcn.h>
 #include <stdlib.h>
@@ -179,6 +180,21 @@ mksets (void)
               addset (M_SCRYPT, nl == 4 && r == 0 && p == 1 && k == 1, "$7$%c%s%s%s", A64[nl], rf, pf, s);
             }
         }
+  /* yescrypt cost fields through every size class of their variable-length encoding (1 character up to 48, 2 characters beyond) */
+  {
+    static const unsigned vs[] = { 2, 3, 47, 48, 49, 50, 51, 52, 63, 64, 65, 111, 112, 113, 114, 115, 130 };
+    char ys[120];
+    for (int w = 0; w < 2; w++)
+      for (unsigned i = 0; i < sizeof vs / sizeof *vs; i++)
+        {
+          vh_ysetting (ys, sizeof ys, w ? "$gy$" : "$y$", 2, vs[i], 1, 0, "saltSALT");
+          addset (w ? M_GOST : M_YESCRYPT, 0, "%s", ys);
+          vh_ysetting (ys, sizeof ys, w ? "$gy$" : "$y$", 10, 1, vs[i], 0, "saltSALT");
+          addset (w ? M_GOST : M_YESCRYPT, 0, "%s", ys);
+          vh_ysetting (ys, sizeof ys, w ? "$gy$" : "$y$", 7, 1, 1, vs[i], "saltSALT");
+          addset (w ? M_GOST : M_YESCRYPT, 0, "%s", ys);
+        }
+  }
   /* salt-length sweeps at the cheapest cost: every length of the range each method accepts (and just beyond) */
   for (int l = 1; l <= 66; l++)
     {
